@@ -17,6 +17,17 @@ CLAIMS = {
     },
 }
 
+CLAIMS['C01'] = {
+    'text': 'seq, sor, star(=star_partial<R>), plus, opt(=partial<R>), at and not_at: the real instantiated match() bodies (with the real normal<R>::match -> match() -> match_control_unwind -> match_no_control chain inlined) are proved, for every apply mode x rewind mode and pack sizes 1..3 (1..4 thorough), to evaluate their sub-rules exactly as the PEG evaluation rule prescribes (order, positions, short-circuit, first successful alternative from the entry iterator, greedy repetition up to the first failure, predicates consuming nothing) against universally quantified oracle sub-rules that may succeed with any length, fail after moving the cursor when rewinding is optional, or raise. The result/cursor formulas contain neither the apply mode nor the rewind mode.',
+    'note': 'Atoms are C10/C15; the lift from per-operator contracts to whole grammars is an induction over the derivation (paper step); partial correctness only (termination is C11); pack sizes above 4 argued by uniformity of the fold expansion.',
+    'design': 'DESIGN.md section 5 C01',
+}
+CLAIMS['C15'] = {
+    'text': 'accumulate_digit (all 8 integer types, boundary set of explicit maxima; loop-free, full domain), accumulate_digits (any length: loop contract with a ghost Horner fold in unsigned __int128), convert_unsigned/positive/negative/signed (exact value incl. the most negative value, overflow reported only when the mathematical value is too big, signed-overflow checks on) and match_unsigned/unsigned_rule (numeral syntax 0|[1-9][0-9]*, stated with a ghost probe index) are proved on the real bodies.',
+    'note': 'Maximum is a boundary set of concrete values per type (a symbolic Maximum needs a divider circuit; not attempted in quick). accumulate_digit is used as a guarded-form stub inside accumulate_digits (P ==> Q), a consequence of the strict contract proved on its body.',
+    'design': 'DESIGN.md section 5 C15',
+}
+
 NOT_APPLICABLE = {
     'C14': 'language equality between a recursive grammar and RFC 8259 is not a per-function contract; json.hpp contains no function bodies (DESIGN.md section 5, C14)',
 }
